@@ -35,16 +35,29 @@ pub struct Workload {
     pub shx_n: Vec<usize>,
 }
 
-/// run a history over {a, b, F} (+ final drop) on the real writer, logging the operations
-pub fn perform(c: &Conc, hist: &str, syms: &Syms) -> Workload {
-    let sa = build(c, &syms.a);
-    let sb = build(c, &syms.b);
+/// run a history over {a, b, F} (+ final drop) on the real writer, logging the operations.
+/// `buffered`: the destinations are wrapped in std::io::BufWriter, as ShapeWriter::from_path does
+/// with its files; the log then holds the operations the BufWriter really issues downstream.
+pub fn perform(c: &Conc, hist: &str, syms: &Syms, buffered: bool) -> Workload {
     let shp = LogDest::new();
     let shx = LogDest::new();
+    if buffered {
+        // a small buffer so that it fills and spills in the middle of records as well
+        let w = ShapeWriter::with_shx(std::io::BufWriter::with_capacity(64, shp.clone()), std::io::BufWriter::with_capacity(64, shx.clone()));
+        perform_on(c, hist, syms, w, shp, shx)
+    } else {
+        let w = ShapeWriter::with_shx(shp.clone(), shx.clone());
+        perform_on(c, hist, syms, w, shp, shx)
+    }
+}
+
+fn perform_on<T: std::io::Write + std::io::Seek>(c: &Conc, hist: &str, syms: &Syms, writer: ShapeWriter<T>, shp: LogDest, shx: LogDest) -> Workload {
+    let sa = build(c, &syms.a);
+    let sb = build(c, &syms.b);
     let mut accepted: Vec<AShape> = vec![];
     let (mut shp_n, mut shx_n) = (vec![], vec![]);
     {
-        let mut w = ShapeWriter::with_shx(shp.clone(), shx.clone());
+        let mut w = writer;
         for ch in hist.chars() {
             match ch {
                 'a' | 'b' => {
@@ -120,9 +133,10 @@ pub fn run(a: &Args) {
         let t = ALL_TYPES[(wi * 3 + seed as usize) % 13];
         let hist = hists[(wi + seed as usize) % hists.len()];
         let syms = if wi % 2 == 0 { model_syms(t, other_type(t, 0)) } else { random_syms(&mut r, t, other_type(t, 0)) };
-        let w = perform(c, hist, &syms);
+        let buffered = wi % 3 == 2;
+        let w = perform(c, hist, &syms, buffered);
         let n = w.shapes.len();
-        traces[i].run(json!({"ev": "workload", "kind": "crash", "t": t, "hist": hist,
+        traces[i].run(json!({"ev": "workload", "kind": "crash", "t": t, "hist": hist, "buffered": buffered,
             "shapes": w.shapes.iter().map(|s| s.to_json()).collect::<Vec<_>>(),
             "shpOps": ops_json(&w.shp_ops, &w.shp_n), "shxOps": ops_json(&w.shx_ops, &w.shx_n)}));
         let sc = cuts(&w.shp_ops);
